@@ -87,10 +87,24 @@ def _op_tokens(run):
     return [("op:" + run, "")]
 
 
-def tokenize(sql):
+def tokenize(sql, spans=None):
+    """tokens as (kind, text); when `spans` is a list it receives one (start, end) character range per token"""
     toks = []
     i, n = 0, len(sql)
-    while i < n:
+    start, done = 0, 0
+    while True:
+        if spans is not None and len(toks) > done:
+            new = toks[done:]
+            if len(new) == 1:
+                spans.append((start, i))
+            else:                       # one run of operator characters scanned as several operators
+                j = start
+                for k, _ in new:
+                    spans.append((j, j + len(k) - 3))
+                    j += len(k) - 3
+        done, start = len(toks), i
+        if i >= n:
+            break
         c = sql[i]
         if c in WS:
             i += 1
